@@ -648,4 +648,14 @@ def s1(ctx):
     relabel(ctx, "C04.S1", c06.r2, c06.r3, c18.r4)
 
 
+def _s1_parts():
+    from .shared import relabel
+    from . import c06, c18
+    from .shared import relabel_parts
+    return relabel_parts("C04.S1", c06.r2, c06.r3, c18.r4)
+
+
+s1.parts = _s1_parts
+
+
 RULES = [("C04.R1", r1), ("C04.R2", r2), ("C04.R3", r3), ("C04.R4", r4), ("C04.R5", r5), ("C04.R6", r6), ("C04.F1", f1), ("C04.S1", s1)]
